@@ -323,7 +323,17 @@ def execute(sc):
         # option sets the serialiser refuses: every route must refuse
         docroutes = [o for o in outcomes if o.route in ('stream', 'path', 'path_twice', 'named_stream', 'file_handle', 'png_uri', 'svg_uri',
                                                         'svgz', 'cli', 'cli_svgz', 'nonseekable')]
-        refusing = [o for o in docroutes if o.err and o.err.startswith('ValueError')]
+        # a route "refuses" when the library raises anything but an I/O error (which exception type escapes is C14's
+        # business): ValueError..., or through the CLI a non-zero status caused by a non-OSError exception / message
+        def _refuses(o):
+            if not o.err:
+                return False
+            if o.err.startswith('ValueError'):
+                return True
+            if o.route in ('cli', 'cli_svgz'):
+                return not o.faulted and o.err.split(':')[0] not in _OSERRORS
+            return False
+        refusing = [o for o in docroutes if _refuses(o)]
         if refusing and all(o in refusing for o in docroutes if not fail_allowed(o)) and not any(o.route in ('cli', 'cli_svgz') and o.proc['status'] == 0 for o in docroutes):
             counters['options_refused_by_all_routes'] = 1
             res['digest'] = core.digest(log)
